@@ -86,6 +86,13 @@ package pogreb
 //@ func (db *DB) Put(key []byte, value []byte) (err error) [C01,C03,C06,C16]
 //@   requires inv: db == theDB() && key == theKey() && dbFull(db) && idxInLog(db) && idxFreeOK(db.index)
 //@   requires unlocked: lockSt[fieldaddr(db, mu)] == 0
+//@   at call put@2: hint log-after-append: dbInv(db)
+//@   at call put@2: hint index-files-after-append: idxFiles(db.index) && idxLH(db.index) && idxFreeOK(db.index)
+//@   at call put@2: hint main-chains-after-append: chainsOK(fData[fidOf[db.index.main.File]], db.index.main.size, db.index.overflow.size)
+//@   at call put@2: hint overflow-chains-after-append: chainsOK(fData[fidOf[db.index.overflow.File]], db.index.overflow.size, db.index.overflow.size)
+//@   at call put@2: hint disjoint-after-append: idxLogDisjoint(db)
+//@   at call put@2: hint main-in-log-after-append: slotsInLog(fData[fidOf[db.index.main.File]], db.index.main.size, db.datalog)
+//@   at call put@2: hint overflow-in-log-after-append: slotsInLog(fData[fidOf[db.index.overflow.File]], db.index.overflow.size, db.datalog)
 //@   ensures [C16] keylimit: len(key) > 65535 ==> err == errKeyTooLarge
 //@   ensures [C16] valuelimit: len(key) <= 65535 && len(value) > 536870912 ==> err == errValueTooLarge
 //@   ensures [C16] rejected-untouched: len(key) > 65535 || len(value) > 536870912 ==> fData == old(fData) && fLen == old(fLen) && fDur == old(fDur) && dirFid == old(dirFid) && db.index.numKeys == old(db.index.numKeys) && segmentsUntouched(db.datalog)
